@@ -17,7 +17,10 @@ ASSUMPTIONS = ["vmon/sim/target.py (reference-decoding, strict) and the binding 
 def shards(tier, seed):
     n = 16
     per = 13 if tier == "quick" else 1250
-    return [{"id": "h%d" % i, "n": per} for i in range(n)]
+    out = [{"id": "h%d" % i, "kind": "hist", "n": per} for i in range(n)]
+    out += [{"id": "tour%d" % i, "kind": "tour", "n": 12 if tier == "quick" else 600} for i in range(4)]
+    out += [{"id": "big%d" % i, "kind": "big", "n": 1 if tier == "quick" else 6, "i": i} for i in range(8)]
+    return out
 
 
 def lba_pool(nblocks, ten):
@@ -67,6 +70,111 @@ def gen_history(rng):
             op["tl"] = min(tl, 0xFFFF)
         ops.append(op)
     return {"bs": bs, "nblocks": nblocks, "ops": ops, "devtype": rng.choice([0, 0, 4, 7]), "inquiry_length": rng.choice([36, 96, 96])}
+
+
+def gen_big(rng, i):
+    """one rare, very large single transfer around 16 MiB (the 24-bit boundary of transport length fields) and 32 MiB"""
+    bs = (512, 4096)[i % 2]
+    total = [(1 << 24) - bs, 1 << 24, (1 << 24) + bs, 1 << 25][(i // 2) % 4]
+    tl = total // bs
+    nblocks = 1 << 41
+    wide = [w for w in (10, 12, 16) if tl <= (0xFFFF if w == 10 else 0xFFFFFFFF)]
+    lba = rng.choice([0, 5, (1 << 32) - 7, (1 << 40) + 3])
+    ops = []
+    for j, kind in enumerate(["write", "read", "read"]):
+        w = rng.choice(wide if lba + tl < 1 << 32 else [16])
+        op = {"kind": kind, "width": w, "lba": lba, "tl": tl, "id": j}
+        op["kw"] = {"group": rng.randrange(32)}
+        ops.append(op)
+    # and the neighbouring small reads
+    ops.append({"kind": "read", "width": 16, "lba": lba + tl - 1, "tl": 2, "id": 3, "kw": {}})
+    return {"bs": bs, "nblocks": nblocks, "ops": ops, "devtype": 0, "inquiry_length": 96}
+
+
+def run_tour(ctx, rng, world):
+    """one facade object visits 2-5 logical units in turn through s(dev) (both transports, different geometries; some units
+    do not implement READ CAPACITY(16), as SBC-2 allows); on every visit capacity, inquiry and a write/read round trip
+    must describe the unit being visited"""
+    from pyscsi.pyscsi.scsi import SCSI
+    from pyscsi.utils import init_device
+
+    from vmon.sim import devnode
+    from vmon.sim.target import Target
+
+    units = []
+    for i in range(rng.randint(2, 5)):
+        bs = rng.choice([512, 520, 4096])
+        nblocks = rng.choice([1 << 20, (1 << 21) + 5, (1 << 32) + 0x3039, 1 << 41])
+        tgt = Target(rng.choice([0, 0, 4, 7]), 0, bs, nblocks, product=b"UNIT %-11d" % i)
+        if rng.random() < 0.4:
+            tgt.unsupported = {"ReadCapacity16", "GetLBAStatus"}
+        transport = rng.choice(["sgio", "iscsi"])
+        if transport == "sgio":
+            dev = init_device(devnode.new_node(), read_write=True)
+        else:
+            dev = init_device("iscsi://192.0.2.1:3260/iqn.2003-01.org.example:disk%d/%d" % (i, i), initiator_name="iqn.2003-01.org.example:me")
+        units.append((tgt, transport, dev, {}))
+    world["sg"].log = []
+    world["is"].log = []
+    s = None
+    visits = []
+    try:
+        order = list(range(len(units))) + [rng.randrange(len(units)) for _ in range(rng.randint(1, 6))]
+        for step, u in enumerate(order):
+            tgt, transport, dev, shadow = units[u]
+            world["sg"].handler = world["is"].handler = tgt.handle
+            visits.append((u, transport, hex(tgt.nblocks), sorted(tgt.unsupported)))
+            wit = {"visits": visits[-6:], "unit": u, "transport": transport, "bs": tgt.bs, "nblocks": tgt.nblocks, "unsupported": sorted(tgt.unsupported)}
+            try:
+                if s is None:
+                    s = SCSI(dev, tgt.bs)
+                else:
+                    s(dev)
+                    s.blocksize = tgt.bs
+            except Exception as e:  # noqa: BLE001
+                ctx.fail("C12:tour.attach_raises.%s" % type(e).__name__, "attaching the facade to unit %d raised %s: %s" % (u, type(e).__name__, e), wit, exc=e)
+                continue
+            ctx.count("tour_visits")
+            for w in rng.sample([10, 16, 16], 2):
+                want_lba = tgt.nblocks - 1 if w == 16 else min(tgt.nblocks - 1, 0xFFFFFFFF)
+                try:
+                    r = getattr(s, "readcapacity%d" % w)().result
+                except Exception as e:  # noqa: BLE001
+                    if w == 16 and "ReadCapacity16" in tgt.unsupported and type(e).__name__ == "CheckCondition":
+                        ctx.count("tour_capacity16_refused_by_unit")
+                        continue
+                    ctx.fail("C12:tour.readcapacity%d_raises.%s" % (w, type(e).__name__), "READ CAPACITY(%d) on unit %d raised %s: %s" % (w, u, type(e).__name__, str(e)[:100]), wit, exc=e)
+                    continue
+                ctx.count("tour_capacities_compared")
+                if r.get("returned_lba") != want_lba or r.get("block_length") != tgt.bs:
+                    ctx.fail("C12:tour.readcapacity%d_result" % w, "READ CAPACITY(%d) on unit %d reports %r, the unit has last lba %#x bs %d (earlier visits: %r)"
+                             % (w, u, {k: r.get(k) for k in ("returned_lba", "block_length")}, want_lba, tgt.bs, visits[-4:-1]), wit)
+            try:
+                r = s.inquiry().result
+                if bytes(r.get("product_identification", b"")) != tgt.product or r.get("peripheral_device_type") != tgt.devtype:
+                    ctx.fail("C12:tour.inquiry_result", "INQUIRY on unit %d reports %r" % (u, bytes(r.get("product_identification", b""))), wit)
+                lba = rng.choice([x for x in (0, 3, (1 << 32) - 1, (1 << 32) + 5, tgt.nblocks - 2) if 0 <= x < tgt.nblocks - 1])
+                w = 16 if lba >= (1 << 32) - 2 else rng.choice([10, 12, 16])
+                data = bytearray(b"".join(payload(step * 100 + u, i, tgt.bs) for i in range(2)))
+                getattr(s, "write%d" % w)(lba, 2, data)
+                shadow[lba], shadow[lba + 1] = bytes(data[:tgt.bs]), bytes(data[tgt.bs:])
+                for pl in list(shadow)[-4:]:
+                    got = bytes(getattr(s, "read%d" % (16 if pl >= 1 << 32 else rng.choice([10, 12, 16])))(pl, 1).datain)
+                    ctx.count("reads_compared")
+                    if got != shadow[pl]:
+                        ctx.fail("C12:tour.read_returns_wrong_data", "unit %d block %#x holds %r, last written %r" % (u, pl, got[:24], shadow[pl][:24]), wit)
+            except Exception as e:  # noqa: BLE001
+                ctx.fail("C12:tour.command_rejected.%s" % type(e).__name__, "valid command on unit %d failed: %s: %s" % (u, type(e).__name__, str(e)[:120]), wit, exc=e)
+            if tgt.anomalies:
+                ctx.fail("C12:tour.target_anomaly", "unit %d: %s" % (u, tgt.anomalies[0]), wit)
+                del tgt.anomalies[:]
+    finally:
+        for tgt, transport, dev, shadow in units:
+            try:
+                dev.close()
+            except Exception:  # noqa: BLE001
+                pass
+    return visits
 
 
 def payload(op_id, idx, bs):
@@ -215,8 +323,16 @@ def run(shard, ctx):
     install.install_fakes()
     world = {"sg": sys.modules["sgio"], "is": sys.modules["iscsi"]}
     rng = ctx.rng()
+    if shard.get("kind") == "tour":
+        for h in range(shard["n"]):
+            visits = run_tour(ctx, rng, world)
+            ctx.case(("tour", repr(visits)), len(visits) > 2, sample={"tour": visits[:6]} if ctx.want_sample() else None)
+            ctx.count("tours")
+        return
     for h in range(shard["n"]):
-        hist = gen_history(rng)
+        hist = gen_big(rng, shard["i"] + 8 * h) if shard.get("kind") == "big" else gen_history(rng)
+        if shard.get("kind") == "big":
+            ctx.add("big_transfer_bytes", hist["ops"][0]["tl"] * hist["bs"])
         r1, ov1 = run_history(ctx, hist, "sgio", world)
         r2, ov2 = run_history(ctx, hist, "iscsi", world)
         ctx.case(repr(hist), ov1, sample={"bs": hist["bs"], "nblocks": hist["nblocks"], "ops": [(o["kind"], o["width"], hex(o["lba"]), o["tl"]) for o in hist["ops"][:10]]} if ctx.want_sample() else None)
@@ -236,8 +352,12 @@ def finalize(merged, tier):
     c = merged["counters"]
     if c.get("reads_compared", 0) == 0:
         merged["inconclusive"].append("no read was compared with the shadow disk")
+    if c.get("tour_capacities_compared", 0) == 0 or c.get("tour_capacity16_refused_by_unit", 0) == 0:
+        merged["inconclusive"].append("the facade tour never compared a capacity / never met a unit without READ CAPACITY(16)")
     return {}
 
 
 def replay(rec, ctx):
-    run({"id": rec.get("shard") or "h0", "n": 13}, ctx)
+    sh = rec.get("shard") or "h0"
+    kind = "tour" if sh.startswith("tour") else "big" if sh.startswith("big") else "hist"
+    run({"id": sh, "kind": kind, "n": 13 if kind == "hist" else 12 if kind == "tour" else 1, "i": int(sh[3:]) if kind == "big" else 0}, ctx)
